@@ -47,8 +47,29 @@ def suffix_of(name, groupings):
     return None
 
 
+def _tainted():
+    """group-level columns that are the subject of an open known finding of this property"""
+    import re as _re
+
+    try:
+        ks = json.load(open(venv.REPO.parent / "verif" / "known_findings.json")) if False else json.load(open(__file__.rsplit("/props/", 1)[0] + "/known_findings.json"))
+    except Exception:  # noqa: BLE001
+        return set()
+    out = set()
+    for k in ks:
+        if k.get("property") == "C15" and k.get("status") == "open":
+            m = _re.match(r"^([^()]+)\(", k.get("key", ""))
+            if m and any(m.group(1).endswith("_" + g) for g in NEST) and not k.get("consequence_of"):
+                out.add(m.group(1))
+    return out
+
+
+TAINTED = set()
+
+
 def _worker(dates):
     from _gettsim.config import SUPPORTED_GROUPINGS
+
 
     groupings = sorted(SUPPORTED_GROUPINGS, key=len, reverse=True)
     out = {"items": {}, "n_nodes": 0, "solver_s": 0.0}
@@ -61,131 +82,145 @@ def _worker(dates):
         # CG(n): the units within which column n is constant, derived along the DAG
         import networkx as nx
 
-        CG = {}
-        for n in nx.topological_sort(df.dag):
-            if n.endswith("_params"):
-                continue
-            k = df.kind.get(n)
-            sfx = suffix_of(n, groupings)
-            if k == "input" or k == "missing_root":
-                base = sfx if sfx else (n[:-3] if n.endswith("_id") and n[:-3] in NEST else None)
-                CG[n] = {g for g in NEST if base in NEST[g]} if base else set()
-            elif k == "grouping":
-                CG[n] = {g for g in NEST if n[:-3] in NEST[g]}
-            elif k == "aggregate_by_group":
-                gid = list(inspect.signature(df.fno[n]).parameters)[-1]
-                CG[n] = {g for g in NEST if gid[:-3] in NEST[g]}
-            elif k in ("scalar_rule", "time_conversion"):
-                ps = [a for a in inspect.signature(inspect.unwrap(df.fno[n]) if k == "scalar_rule" else df.fno[n]).parameters if not a.endswith("_params")]
-                cg = set(NEST)
-                for a in ps:
-                    cg &= CG.get(a, set())
-                # a node that carries a group suffix is constant within that unit by its OWN
-                # obligation (assume-guarantee): consumers are not charged for a producer's defect
-                if sfx:
-                    cg |= {g for g in NEST if sfx in NEST[g]}
-                CG[n] = cg
-            else:
-                CG[n] = set()
-        for n in df.dag.nodes:
-            g = suffix_of(n, groupings)
-            if g is None or n not in df.fno:
-                continue
-            out["n_nodes"] += 1
-            kind = df.kind[n]
-            f = df.fno[n]
-            if kind in ("aggregate_by_group",):
-                gid = list(inspect.signature(f).parameters)[-1]
-                key = ("agg", n, gid)
-                if key in seen:
+        def one_pass(tainted):
+            node_key = {}
+            CG = {}
+            for n in nx.topological_sort(df.dag):
+                if n.endswith("_params"):
                     continue
-                seen.add(key)
-                ok = gid == f"{g}_id"
-                out["items"][str(key)] = {"name": f"{n}: aggregates by its own group id", "status": "discharged" if ok else "refuted", "detail": f"group id argument {gid}", "date": str(d)}
-                continue
-            if kind == "aggregate_by_p_id":
-                key = ("aggp", n)
-                if key not in seen:
+                k = df.kind.get(n)
+                sfx = suffix_of(n, groupings)
+                if k == "input" or k == "missing_root":
+                    base = sfx if sfx else (n[:-3] if n.endswith("_id") and n[:-3] in NEST else None)
+                    CG[n] = {g for g in NEST if base in NEST[g]} if base else set()
+                elif k == "grouping":
+                    CG[n] = {g for g in NEST if n[:-3] in NEST[g]}
+                elif k == "aggregate_by_group":
+                    gid = list(inspect.signature(df.fno[n]).parameters)[-1]
+                    CG[n] = {g for g in NEST if gid[:-3] in NEST[g]}
+                elif k in ("scalar_rule", "time_conversion"):
+                    ps = [a for a in inspect.signature(inspect.unwrap(df.fno[n]) if k == "scalar_rule" else df.fno[n]).parameters if not a.endswith("_params")]
+                    cg = set(NEST)
+                    for a in ps:
+                        cg &= CG.get(a, set())
+                    # a node that carries a group suffix is constant within that unit by its OWN
+                    # obligation (assume-guarantee): consumers are not charged for a producer's defect
+                    # ... unless the producer is the subject of an OPEN known finding: then its value is known to
+                    # vary within the group, and a rule that reads it inherits the defect (a NEW reader of such
+                    # a column is a new violation, reported under the reader's own name)
+                    if sfx and n not in tainted:
+                        cg |= {g for g in NEST if sfx in NEST[g]}
+                    CG[n] = cg
+                else:
+                    CG[n] = set()
+            for n in df.dag.nodes:
+                g = suffix_of(n, groupings)
+                if g is None or n not in df.fno:
+                    continue
+                out["n_nodes"] += 1
+                kind = df.kind[n]
+                f = df.fno[n]
+                if kind in ("aggregate_by_group",):
+                    gid = list(inspect.signature(f).parameters)[-1]
+                    key = ("agg", n, gid)
+                    if key in seen:
+                        continue
                     seen.add(key)
-                    out["items"][str(key)] = {"name": f"{n}: person-pointer aggregate with a group suffix", "status": "refuted", "detail": "a pointer aggregate is individual-level", "date": str(d)}
-                continue
-            if kind == "time_conversion":
-                (src,) = list(inspect.signature(f).parameters)
-                key = ("tc", n, src)
+                    ok = gid == f"{g}_id"
+                    out["items"][str(key)] = {"name": f"{n}: aggregates by its own group id", "status": "discharged" if ok else "refuted", "detail": f"group id argument {gid}", "date": str(d)}
+                    continue
+                if kind == "aggregate_by_p_id":
+                    key = ("aggp", n)
+                    if key not in seen:
+                        seen.add(key)
+                        out["items"][str(key)] = {"name": f"{n}: person-pointer aggregate with a group suffix", "status": "refuted", "detail": "a pointer aggregate is individual-level", "date": str(d)}
+                    continue
+                if kind == "time_conversion":
+                    (src,) = list(inspect.signature(f).parameters)
+                    key = ("tc", n, src)
+                    if key in seen:
+                        continue
+                    seen.add(key)
+                    ok = suffix_of(src, groupings) == g
+                    out["items"][str(key)] = {"name": f"{n}: time conversion of a column of the same group", "status": "discharged" if ok else "refuted", "detail": f"source {src}", "date": str(d)}
+                    continue
+                if kind != "scalar_rule":
+                    continue
+                f0 = inspect.unwrap(f)
+                args = [a for a in inspect.signature(f0).parameters if not a.endswith("_params")]
+                indiv = [a for a in args if g not in CG.get(a, set())]
+                key = ("rule", f0.__module__, f0.__qualname__, tuple((x, fps.get(x[:-7])) for x in inspect.signature(f0).parameters if x.endswith("_params")), tuple(indiv))
+                node_key[n] = str(key)
                 if key in seen:
                     continue
                 seen.add(key)
-                ok = suffix_of(src, groupings) == g
-                out["items"][str(key)] = {"name": f"{n}: time conversion of a column of the same group", "status": "discharged" if ok else "refuted", "detail": f"source {src}", "date": str(d)}
-                continue
-            if kind != "scalar_rule":
-                continue
-            f0 = inspect.unwrap(f)
-            args = [a for a in inspect.signature(f0).parameters if not a.endswith("_params")]
-            indiv = [a for a in args if g not in CG.get(a, set())]
-            key = ("rule", f0.__module__, f0.__qualname__, tuple((x, fps.get(x[:-7])) for x in inspect.signature(f0).parameters if x.endswith("_params")), tuple(indiv))
-            if key in seen:
-                continue
-            seen.add(key)
-            item = {"name": f"{n} ({f0.__qualname__}): depends on group-level arguments only", "status": "discharged", "detail": f"individual-level arguments: {indiv}", "date": str(d), "node": n, "group": g}
-            out["items"][str(key)] = item
-            if not indiv:
-                continue
-            sym = {}
-            bad_type = None
-            for a in args:
-                t = df.types.get(a)
-                if t is None:
-                    bad_type = a
-                sym[a] = t
-            if bad_type:
-                item["status"] = "unsupported"
-                item["detail"] = f"argument {bad_type} has no type"
-                continue
-            try:
-                s = symx.summarise(f, sym_args=sym, conc_args=e.conc_params_for(f), range_bound=rules.RANGE_BOUND)
-            except symx.Unsupported as ex:
-                item["status"] = "unsupported"
-                item["detail"] = str(ex)
-                continue
-            if isinstance(s.result, symx.Undefined):
-                continue
-            pre = []
-            for a in args:
-                if df.kind.get(a) == "input":
-                    pre.extend(vin.valid_clause(a, s.args[a][0], sym[a], e.params))
-            try:
-                if df.types.get(n) == "bool":
-                    res = symx._b(symx.Executor().truthy(s.result))
-                else:
-                    res = symx.real_term(s.result, pre)
-            except (symx.Unsupported, symx.InfiniteValue) as ex:
-                item["status"] = "unsupported"
-                item["detail"] = str(ex)
-                continue
-            ret = symx.mk_or(*[gd for gd, _ in s.returns])
-            for a in indiv:
-                term, ty = s.args[a]
-                a2 = facts.mkvar(a + "'", ty)
-                res2 = z3.substitute(res, (term, a2))
-                pre2 = [z3.substitute(c, (term, a2)) for c in pre]
-                ret2 = z3.substitute(ret, (term, a2))
-                r = solve.check([*pre, *pre2, ret, ret2, res != res2], 30)
-                out["solver_s"] += r.seconds
-                if r.status == "unsat":
+                item = {"name": f"{n} ({f0.__qualname__}): depends on group-level arguments only", "status": "discharged", "detail": f"individual-level arguments: {indiv}", "date": str(d), "node": n, "group": g, "qualname": f0.__qualname__, "tainted_args": [a for a in indiv if a in tainted]}
+                out["items"][str(key)] = item
+                if not indiv:
                     continue
-                if r.status == "sat":
-                    m = r.model
-                    inp = rules.model_inputs(m, s)
-                    v2 = m.eval(a2, model_completion=True)
-                    inp2 = dict(inp)
-                    inp2[a] = bool(z3.is_true(v2)) if ty == "bool" else v2.as_long() if ty == "int" else float(v2.numerator_as_long()) / float(v2.denominator_as_long()) if z3.is_rational_value(v2) else 0.0
-                    item["status"] = "refuted"
-                    item.setdefault("witnesses", []).append({"arg": a, "member1": inp, "member2": inp2})
-                else:
-                    if item["status"] != "refuted":
-                        item["status"] = "unknown"
-                    item["detail"] += f"; {a}: solver {r.status}"
+                sym = {}
+                bad_type = None
+                for a in args:
+                    t = df.types.get(a)
+                    if t is None:
+                        bad_type = a
+                    sym[a] = t
+                if bad_type:
+                    item["status"] = "unsupported"
+                    item["detail"] = f"argument {bad_type} has no type"
+                    continue
+                try:
+                    s = symx.summarise(f, sym_args=sym, conc_args=e.conc_params_for(f), range_bound=rules.RANGE_BOUND)
+                except symx.Unsupported as ex:
+                    item["status"] = "unsupported"
+                    item["detail"] = str(ex)
+                    continue
+                if isinstance(s.result, symx.Undefined):
+                    continue
+                pre = []
+                for a in args:
+                    if df.kind.get(a) == "input":
+                        pre.extend(vin.valid_clause(a, s.args[a][0], sym[a], e.params))
+                try:
+                    if df.types.get(n) == "bool":
+                        res = symx._b(symx.Executor().truthy(s.result))
+                    else:
+                        res = symx.real_term(s.result, pre)
+                except (symx.Unsupported, symx.InfiniteValue) as ex:
+                    item["status"] = "unsupported"
+                    item["detail"] = str(ex)
+                    continue
+                ret = symx.mk_or(*[gd for gd, _ in s.returns])
+                for a in indiv:
+                    term, ty = s.args[a]
+                    a2 = facts.mkvar(a + "'", ty)
+                    res2 = z3.substitute(res, (term, a2))
+                    pre2 = [z3.substitute(c, (term, a2)) for c in pre]
+                    ret2 = z3.substitute(ret, (term, a2))
+                    r = solve.check([*pre, *pre2, ret, ret2, res != res2], 30)
+                    out["solver_s"] += r.seconds
+                    if r.status == "unsat":
+                        continue
+                    if r.status == "sat":
+                        m = r.model
+                        inp = rules.model_inputs(m, s)
+                        v2 = m.eval(a2, model_completion=True)
+                        inp2 = dict(inp)
+                        inp2[a] = bool(z3.is_true(v2)) if ty == "bool" else v2.as_long() if ty == "int" else float(v2.numerator_as_long()) / float(v2.denominator_as_long()) if z3.is_rational_value(v2) else 0.0
+                        item["status"] = "refuted"
+                        item.setdefault("witnesses", []).append({"arg": a, "member1": inp, "member2": inp2})
+                    else:
+                        if item["status"] != "refuted":
+                            item["status"] = "unknown"
+                        item["detail"] += f"; {a}: solver {r.status}"
+            return node_key
+
+        nk = one_pass(frozenset())
+        # producers refuted at THIS date vary within their group: rules that read them inherit the defect and are
+        # charged for it in a second pass (a new reader of a known-defective column is a new violation)
+        refuted_here = frozenset(n_ for n_, k_ in nk.items() if out["items"].get(k_, {}).get("status") == "refuted")
+        if refuted_here:
+            one_pass(refuted_here)
     return out
 
 
@@ -258,6 +293,9 @@ def run(tier="quick", seed=0, jobs=16):
                         bad, vals = api_replay(it["date"], it["node"], it["group"], w)
                     except Exception as ex:  # noqa: BLE001
                         bad, vals = False, repr(ex)
+                    if w["arg"] in (it.get("tainted_args") or []):
+                        rep.violation(f"{it.get('qualname', it['node'])}({w['arg']})", f"{it['node']} ({it.get('qualname')}) reads {w['arg']}, a column that is known to vary within its group (open known finding): two members of one {it['group']} with {w['arg']}={w['member1'][w['arg']]} / {w['member2'][w['arg']]} get {vals}", {"date": it["date"], "node": it["node"], "group": it["group"], "witness": w, "obligation": it["name"], "consequence_of": w["arg"]}, failing_input_found=bool(bad))
+                        continue
                     rep.violation(f"{it['node']}({w['arg']})", f"{it['node']} takes the individual-level argument {w['arg']}: two members of one {it['group']} with {w['arg']}={w['member1'][w['arg']]} / {w['member2'][w['arg']]} get {vals}", {"date": it["date"], "node": it["node"], "group": it["group"], "witness": w, "obligation": it["name"]}, failing_input_found=bool(bad))
             else:
                 rep.violation(it["name"], it["detail"], {"obligation": it["name"], "date": it["date"]}, True)
